@@ -398,9 +398,10 @@ def ob_read_zoom_headers(ctx, res):
         if len(lits) != 1:
             res.undecided("zoomHeaders[%s]/struct" % en, arm, "expected one ZoomHeader literal per level, found %d" % len(lits))
             continue
-        fld = {x["name"]: (up(strip(x["e"])) if x.get("e") is not None and not x.get("shorthand") else x["name"]) for x in lits[0]["fields"]}
+        fld = {x["name"]: (yielded_name(x["e"]) if x.get("e") is not None and not x.get("shorthand") else x["name"]) for x in lits[0]["fields"]}
         bound = [t.bound for t in takes]
-        if any(b_ is None for b_ in (bound[0], bound[2], bound[3])):
+        if any(b_ is None or b_.startswith("@") for b_ in (bound[0], bound[2], bound[3])) and not all(
+                fld.get(k_) == b_ for k_, b_ in (("reduction_level", bound[0]), ("data_offset", bound[2]), ("index_offset", bound[3]))):
             # the arm yields the four reads as a tuple that is destructured outside: names by position
             tl = m.parent
             while tl is not None and isinstance(tl, Node) and tl.k != "let":
@@ -1056,9 +1057,9 @@ def ob_zoom_block_r(ctx, res):
             e = strip(x["e"])
             if e.k == "struct":
                 for y in e["fields"]:
-                    fld[x["name"] + "." + y["name"]] = up(strip(y["e"]))
+                    fld[x["name"] + "." + y["name"]] = yielded_name(y["e"])
             else:
-                fld[x["name"]] = up(e)
+                fld[x["name"]] = yielded_name(x["e"])
         for t, (fname, w, k) in zip(takes, F.ZOOM_RECORD):
             if fld.get(ZR_FIELDS[fname]) != t.bound:
                 res.fail("zoomRecordR[%s]/%s/flow" % (en, fname), lits[0], "ZoomRecord.%s must receive slot %s (read `%s`), has `%s`" % (
